@@ -265,6 +265,7 @@ def triage(prop, tier, base_seed, results, log):
     new = 0
     nknown = 0
     used_paths = {}
+    unrepro = []
     os.makedirs(REPLAY_DIR, exist_ok=True)
     for k, (r, v) in sorted(by_sig.items(),
                             key=lambda kv: kv[1][0]['index']):
@@ -277,9 +278,10 @@ def triage(prop, tier, base_seed, results, log):
             small, fin = plan, prop.execute(jsonable(plan))
             vv = same_violation(fin, k)
             if vv is None:
-                raise HarnessError(
+                unrepro.append(
                     'violation %s of plan %d did not reproduce in-process'
                     % (k, r['index']))
+                continue
         nfile = used_paths.get(r['index'], 0)
         used_paths[r['index']] = nfile + 1
         path = os.path.join(REPLAY_DIR, '%s-%d-%d%s.json' % (
@@ -298,11 +300,14 @@ def triage(prop, tier, base_seed, results, log):
         rr = replay_in_fresh_interpreter(pid, path)
         if k not in rr.get('sigs', []) or rr.get('digest') != \
                 fin.get('digest'):
-            raise HarnessError(
-                'replay of %s in a fresh interpreter did not reproduce: '
-                'sigs=%s digest %s vs %s' % (path, rr.get('sigs'),
+            # it depends on state left behind by other plans of the worker
+            # process: not reportable as a violation with a replay file
+            unrepro.append(
+                'replay of %s in a fresh interpreter did not reproduce %s: '
+                'sigs=%s digest %s vs %s' % (path, k, rr.get('sigs'),
                                              rr.get('digest'),
                                              fin.get('digest')))
+            continue
         if kf is not None:
             nknown += 1
             log('KNOWN-FINDING: property=%s %s [%s] replay=%s' % (
@@ -314,6 +319,11 @@ def triage(prop, tier, base_seed, results, log):
             log('  detail: %s' % json.dumps(vv.get('detail'),
                                             default=kernel._json_default
                                             )[:1500])
+    if unrepro:
+        for u in unrepro[:5]:
+            log('note: ' + u)
+        if not new:
+            raise HarnessError(unrepro[0])
     return new, nknown
 
 
@@ -430,6 +440,7 @@ def main_check(pid, tier, base_seed, workers, log=print):
         chunk=getattr(prop, 'CHUNK', 8))
     herr = [r for r in results if 'harness_error' in r]
     extra = {'coverage': {}}
+    nondet = []
     # determinism: a sample of indices re-executed in a fresh interpreter
     # with another hash seed and another worker count
     ok = [r for r in results if 'harness_error' not in r]
@@ -445,14 +456,7 @@ def main_check(pid, tier, base_seed, workers, log=print):
         extra['coverage']['determinism'] = {
             'pairs': len(sample), 'mismatches': len(mism),
             'other_hashseed': 1, 'other_workers': 3 if workers > 3 else 1}
-        if mism:
-            for r in herr[:3]:
-                log(r['harness_error'])
-            log('HARNESS-ERROR property=%s nondeterministic digests for '
-                'plan indices %s' % (pid, mism[:10]))
-            write_evidence(prop, tier, base_seed, results,
-                           time.time() - t0, extra, 0, skipped)
-            return 2
+        nondet = mism
     try:
         new, nknown = triage(prop, tier, base_seed, results, log)
     except HarnessError as e:
@@ -470,6 +474,18 @@ def main_check(pid, tier, base_seed, workers, log=print):
             json.dumps(c['fault_fired'], sort_keys=True), new, nknown, wall))
     if c['probes_stuck_at_zero']:
         log('warning: probes never hit: %s' % c['probes_stuck_at_zero'])
+    if nondet and not new:
+        # state leaking between plans of one process (or a real source of
+        # nondeterminism in the harness): never a pass. When the same run
+        # also found a violation that replays exactly in a fresh
+        # interpreter, the violation is what gets reported.
+        log('HARNESS-ERROR property=%s nondeterministic digests for plan '
+            'indices %s' % (pid, nondet[:10]))
+        return 2
+    if nondet:
+        log('note: digests of plan indices %s differed between two '
+            'executions (state carried over between plans in one process)'
+            % nondet[:10])
     if herr:
         log(herr[0]['harness_error'])
         log('HARNESS-ERROR property=%s %d plans raised in the harness' % (
